@@ -157,6 +157,9 @@ def b64decode(y, *a, **k):
         raise _binascii.Error('Incorrect padding')
     kk = e.tags['b64d'] = e.tags.get('b64d', 0) + 1
     out, _ = rope.blob('b64dec%d' % kk, 0, None)
+    bl = rope.pieces_of(out)[0][1]
+    for i in range(8):
+        core.declare_input('b64dec%d[%d]' % (kk, i), bl.byte(z3.IntVal(i)))
     return out
 
 
